@@ -38,6 +38,7 @@ class Ctx(object):
         self.cov = {}
         self.obligations = []    # (name, ok, detail)
         self.broken = []         # names of theorems / correspondence stages that no longer check
+        self.replaying = False   # a re-run for --replay: no evidence file, no verdict lines
 
     def cleanup(self):
         shutil.rmtree(self.tmp, ignore_errors=True)
@@ -313,6 +314,8 @@ def finish(ctx, level_rule, samples, evaluations, distinct_nontrivial, extra=Non
     cov.update(ctx.cov)
     if extra:
         cov.update(extra)
+    if ctx.replaying:
+        return 1 if ctx.violations else 0
     ev = dict(property_id=ctx.prop, tier=ctx.tier, seed=ctx.seed, level='proof', coverage=cov,
               assumptions=assumptions or [], wall_s=round(time.time() - ctx.t0, 2), violations=len(ctx.violations))
     # evidence under /verif/evidence describes /repo only: a run pointed at a scratch copy (seeded/try.sh) leaves its evidence in that copy
